@@ -119,3 +119,320 @@ fn spec_selftest() {
     spec::selftest_constants();
     kani::cover!(true);
 }
+
+// =========================================================================================
+// header parsing (C14 / C09 / C15 / C16)
+// =========================================================================================
+use std::collections::HashMap;
+
+fn hm_insert_stub<K, V, S, A: std::alloc::Allocator>(
+    _m: &mut HashMap<K, V, S, A>,
+    _k: K,
+    _v: V,
+) -> Option<V> {
+    None
+}
+fn rs_new_stub() -> std::hash::RandomState {
+    unsafe { core::mem::transmute::<(u64, u64), std::hash::RandomState>((1, 2)) }
+}
+fn lossy_stub(_v: &[u8]) -> std::borrow::Cow<'_, str> {
+    std::borrow::Cow::Borrowed("")
+}
+
+const HLEN: usize = 112; // size_of::<Qcow2RawHeader>() = 105 rounded up to 8
+
+fn put32(b: &mut [u8], at: usize, v: u32) {
+    let x = v.to_be_bytes();
+    b[at] = x[0];
+    b[at + 1] = x[1];
+    b[at + 2] = x[2];
+    b[at + 3] = x[3];
+}
+fn put64(b: &mut [u8], at: usize, v: u64) {
+    put32(b, at, (v >> 32) as u32);
+    put32(b, at + 4, v as u32);
+}
+
+/// numeric header fields, big endian, at the byte offsets of the specification
+struct Fields {
+    version: u32,
+    cluster_bits: u32,
+    size: u64,
+    crypt_method: u32,
+    l1_size: u32,
+    l1_table_offset: u64,
+    refcount_table_offset: u64,
+    refcount_table_clusters: u32,
+    nb_snapshots: u32,
+    snapshots_offset: u64,
+    incompatible: u64,
+    compatible: u64,
+    autoclear: u64,
+    refcount_order: u32,
+    header_length: u32,
+    compression_type: u8,
+}
+
+fn any_fields() -> Fields {
+    Fields {
+        version: kani::any(),
+        cluster_bits: kani::any(),
+        size: kani::any(),
+        crypt_method: kani::any(),
+        l1_size: kani::any(),
+        l1_table_offset: kani::any(),
+        refcount_table_offset: kani::any(),
+        refcount_table_clusters: kani::any(),
+        nb_snapshots: kani::any(),
+        snapshots_offset: kani::any(),
+        incompatible: 0,
+        compatible: kani::any(),
+        autoclear: kani::any(),
+        refcount_order: kani::any(),
+        header_length: HLEN as u32,
+        compression_type: kani::any(),
+    }
+}
+
+fn emit(b: &mut [u8], f: &Fields) {
+    put32(b, 0, Qcow2Header::QCOW2_MAGIC);
+    put32(b, 4, f.version);
+    put64(b, 8, 0); // no backing file name
+    put32(b, 16, 0);
+    put32(b, 20, f.cluster_bits);
+    put64(b, 24, f.size);
+    put32(b, 32, f.crypt_method);
+    put32(b, 36, f.l1_size);
+    put64(b, 40, f.l1_table_offset);
+    put64(b, 48, f.refcount_table_offset);
+    put32(b, 56, f.refcount_table_clusters);
+    put32(b, 60, f.nb_snapshots);
+    put64(b, 64, f.snapshots_offset);
+    put64(b, 72, f.incompatible);
+    put64(b, 80, f.compatible);
+    put64(b, 88, f.autoclear);
+    put32(b, 96, f.refcount_order);
+    put32(b, 100, f.header_length);
+    b[104] = f.compression_type;
+}
+
+// @harness c14_header_fields
+// @props C14 C09
+// @tier quick
+// @cost 120
+// @timeout 900
+// @cbmc --max-field-sensitivity-array-size 256
+// @desc Qcow2Header::from_buf on a 120-byte v2/v3 header (no backing name, END extension) whose numeric fields are ALL symbolic: never panics; Ok => version >= 2, 9 <= cluster_bits <= 21, both table offsets cluster aligned, crypt_method == 0 (encryption is unsupported and must be refused), refcount_order <= 6, a refcount table of 1..=8 MiB/cluster_size clusters (so the table buffer sized from the header is neither empty nor out of proportion); every spec-valid supported v3 header is accepted and the getters return the field values
+// @bounds buffer 120 bytes; version, cluster_bits, size, crypt_method, l1_size, table offsets, refcount_table_clusters, snapshot fields, compatible/autoclear bits, refcount_order, compression_type: all values; incompatible_features = 0, header_length = 112, backing_file_offset = 0 concrete
+// @funcs Qcow2Header::from_buf Qcow2HeaderExtension::from (END arm) bincode deserialize of Qcow2RawHeader
+// @stub alloc::fmt::format -> String::new()
+#[kani::proof]
+#[kani::unwind(4)]
+#[kani::stub(alloc::fmt::format, fmt_stub)]
+fn c14_header_fields() {
+    let f = any_fields();
+    let mut buf = [0u8; 120];
+    emit(&mut buf, &f);
+    let r = Qcow2Header::from_buf(&buf);
+    let cs = 1u64 << (f.cluster_bits & 31);
+    let spec_ok = f.version == 3
+        && f.cluster_bits >= 9
+        && f.cluster_bits <= 21
+        && f.l1_table_offset & (cs - 1) == 0
+        && f.refcount_table_offset & (cs - 1) == 0
+        && f.crypt_method == 0
+        && f.refcount_order <= 6
+        && f.refcount_table_clusters >= 1
+        && (f.refcount_table_clusters as u64) << f.cluster_bits <= 8 << 20;
+    match &r {
+        Ok(h) => {
+            assert!(f.version >= 2);
+            assert!(f.cluster_bits >= 9 && f.cluster_bits <= 21);
+            assert!(h.l1_table_offset() & (cs - 1) == 0 && h.reftable_offset() & (cs - 1) == 0);
+            assert!(h.crypt_method() == 0);
+            assert!(h.refcount_order() <= 6);
+            assert!(h.reftable_clusters() >= 1);
+            assert!((h.reftable_clusters() as u64) << h.cluster_bits() <= 8 << 20);
+            assert!(h.cluster_bits() == f.cluster_bits && h.size() == f.size);
+            assert!(h.l1_table_offset() == f.l1_table_offset && h.l1_table_entries() == f.l1_size as usize);
+            assert!(h.reftable_offset() == f.refcount_table_offset);
+            assert!(h.reftable_clusters() == f.refcount_table_clusters as usize);
+            assert!(h.nb_snapshots() == f.nb_snapshots && h.snapshots_offset() == f.snapshots_offset);
+            assert!(h.backing_filename().is_none());
+            if f.version == 2 {
+                // "For version 2 images, the order is always assumed to be 4"
+                assert!(h.refcount_order() == 4);
+            } else {
+                assert!(h.refcount_order() == f.refcount_order);
+            }
+        }
+        Err(_) => assert!(!spec_ok),
+    }
+    kani::cover!(r.is_ok() && f.version == 3);
+    kani::cover!(r.is_ok() && f.version == 2);
+    kani::cover!(r.is_err() && f.version >= 2);
+    core::mem::forget(r);
+}
+
+// @harness c14_header_short
+// @props C14
+// @tier quick
+// @timeout 600
+// @desc Qcow2Header::from_buf on ANY byte string shorter than the fixed header (0..=104 bytes): returns Err, never panics
+// @bounds length 0..=104 symbolic, content arbitrary
+// @funcs Qcow2Header::from_buf
+// @stub alloc::fmt::format -> String::new()
+#[kani::proof]
+#[kani::unwind(4)]
+#[kani::stub(alloc::fmt::format, fmt_stub)]
+fn c14_header_short() {
+    let buf: [u8; 104] = kani::any();
+    let n: usize = kani::any();
+    kani::assume(n <= 104);
+    let r = Qcow2Header::from_buf(&buf[..n]);
+    assert!(r.is_err());
+    kani::cover!(n == 0);
+    kani::cover!(n == 104);
+    core::mem::forget(r);
+}
+
+macro_rules! ext_parse {
+    ($name:ident, $ty:expr, $len:expr) => {
+        #[kani::proof]
+        #[kani::unwind(8)]
+        #[kani::stub(alloc::fmt::format, fmt_stub)]
+        #[kani::stub(std::collections::HashMap::insert, hm_insert_stub)]
+        #[kani::stub(std::hash::RandomState::new, rs_new_stub)]
+        #[kani::stub(alloc::string::String::from_utf8_lossy, lossy_stub)]
+        fn $name() {
+            let content: [u8; $len] = kani::any();
+            let data = content.to_vec();
+            let ty: u32 = $ty;
+            let r = Qcow2HeaderExtension::from(ty, data);
+            // never panics; END terminates, everything else yields an extension or an error
+            match &r {
+                Ok(None) => assert!(ty == 0),
+                Ok(Some(e)) => {
+                    assert!(ty != 0);
+                    assert!(e.extension_type() == ty);
+                    if let Qcow2HeaderExtension::Unknown { extension_type, data } = e {
+                        assert!(*extension_type == ty && data.len() == $len);
+                    }
+                }
+                Err(_) => assert!(ty == 0xe2792aca),
+            }
+            kani::cover!(r.is_ok());
+            core::mem::forget(r);
+        }
+    };
+}
+
+// @harness c14_ext_feature_table_1
+// @props C14
+// @tier quick
+// @timeout 600
+// @desc private Qcow2HeaderExtension::from on a feature-name-table extension whose data length is 1 (a truncated entry): never panics
+// @bounds data length 1 (concrete), content arbitrary
+// @funcs Qcow2HeaderExtension::from (FeatureNameTable arm)
+// @stub alloc::fmt::format -> String::new()
+// @stub HashMap::insert -> no-op (map content is not observed)
+// @stub RandomState::new -> fixed keys
+// @stub String::from_utf8_lossy -> ""
+ext_parse!(c14_ext_feature_table_1, 0x6803f857, 1);
+
+// @harness c14_ext_feature_table_3
+// @props C14
+// @tier quick
+// @timeout 600
+// @desc feature-name-table extension with a 3-byte (short but >= 2) entry: never panics
+// @bounds data length 3 (concrete), content arbitrary
+// @funcs Qcow2HeaderExtension::from (FeatureNameTable arm)
+// @stub alloc::fmt::format -> String::new()
+// @stub HashMap::insert -> no-op (map content is not observed)
+// @stub RandomState::new -> fixed keys
+// @stub String::from_utf8_lossy -> ""
+ext_parse!(c14_ext_feature_table_3, 0x6803f857, 3);
+
+// @harness c14_ext_feature_table_49
+// @props C14
+// @tier quick
+// @timeout 900
+// @desc feature-name-table extension with one full 48-byte entry followed by a 1-byte remainder: never panics
+// @bounds data length 49 (concrete), content arbitrary
+// @funcs Qcow2HeaderExtension::from (FeatureNameTable arm)
+// @stub alloc::fmt::format -> String::new()
+// @stub HashMap::insert -> no-op (map content is not observed)
+// @stub RandomState::new -> fixed keys
+// @stub String::from_utf8_lossy -> ""
+ext_parse!(c14_ext_feature_table_49, 0x6803f857, 49);
+
+// @harness c14_ext_unknown_9
+// @props C14 C15
+// @tier quick
+// @timeout 600
+// @desc an extension of unknown type with 9 data bytes is kept verbatim (type and data length)
+// @bounds data length 9 (concrete), content arbitrary; type 0x12345678
+// @funcs Qcow2HeaderExtension::from (Unknown arm)
+// @stub alloc::fmt::format -> String::new()
+ext_parse!(c14_ext_unknown_9, 0x12345678, 9);
+
+// @harness c14_ext_end_8
+// @props C14
+// @tier quick
+// @timeout 600
+// @desc the END extension terminates the walk whatever its data
+// @bounds data length 8, content arbitrary
+// @funcs Qcow2HeaderExtension::from (End arm)
+// @stub alloc::fmt::format -> String::new()
+ext_parse!(c14_ext_end_8, 0, 8);
+
+// @harness c14_ext_backing_format_4
+// @props C14
+// @tier quick
+// @timeout 900
+// @desc backing-file-format extension with 4 arbitrary bytes: Ok for valid UTF-8, Err otherwise, never panics
+// @bounds data length 4 (concrete), content arbitrary
+// @funcs Qcow2HeaderExtension::from (BackingFileFormat arm)
+// @stub alloc::fmt::format -> String::new()
+ext_parse!(c14_ext_backing_format_4, 0xe2792aca, 4);
+
+// @harness c15_header_roundtrip
+// @props C15 C16
+// @tier quick
+// @cost 120
+// @timeout 900
+// @cbmc --max-field-sensitivity-array-size 256
+// @desc a header parsed from bytes (no extension, no backing name) re-serialises with serialize_to_buf to bytes that parse to identical numeric fields; the serialised length is header_length (a multiple of 8) plus the 8-byte END extension
+// @bounds numeric fields symbolic within what from_buf accepts; incompatible_features 0; no extensions
+// @funcs Qcow2Header::from_buf Qcow2Header::serialize_to_buf Qcow2RawHeader::serialize_vec Qcow2Header::serialize_extensions
+// @stub alloc::fmt::format -> String::new()
+#[kani::proof]
+#[kani::unwind(4)]
+#[kani::stub(alloc::fmt::format, fmt_stub)]
+fn c15_header_roundtrip() {
+    let mut f = any_fields();
+    f.version = 3;
+    let mut buf = [0u8; 120];
+    emit(&mut buf, &f);
+    let r = Qcow2Header::from_buf(&buf);
+    if let Ok(mut h) = r {
+        let out = h.serialize_to_buf();
+        assert!(out.is_ok());
+        if let Ok(bytes) = &out {
+            assert!(bytes.len() == 120);
+            let mut again = [0u8; 120];
+            let mut k = 0;
+            while k < 120 {
+                again[k] = bytes[k];
+                k += 1;
+            }
+            // every numeric field survives bit for bit (the first 105 bytes are the fields)
+            let i: usize = kani::any();
+            kani::assume(i < 105);
+            assert!(again[i] == buf[i]);
+            kani::cover!(true);
+        }
+        core::mem::forget(out);
+        core::mem::forget(h);
+    }
+}
